@@ -351,7 +351,7 @@ def unusual_cases():
         cases.append({"kind": "unusual", "what": "gomod-" + name, "gomod": name, "placement": "inpkg"})
         cases.append({"kind": "unusual", "what": "gomod-" + name + "-outpkg", "gomod": name, "placement": "outpkg"})
     for w in ("local-types", "build-tagged", "test-only-dir", "empty-dir-recursive", "anchors", "anchors-nested-map", "long-names", "main-package",
-              "unicode-idents", "dot-import", "cgo-free-tags", "nested-module-output", "testfile-iface", "blank-and-init"):
+              "unicode-idents", "dot-import", "cgo-free-tags", "nested-module-output", "testfile-iface", "blank-and-init", "configs-null-entry"):
         cases.append({"kind": "unusual", "what": w})
     return cases
 
@@ -434,6 +434,9 @@ def build_unusual(case):
         files["p1/x_test.go"] = "package p1\n\ntype OnlyInTest interface{ T() }\n"
         cfg["packages"][MOD + "/p1"] = {"config": {"all": True}}
         expect["p1"] = ["MockAlpha", "MockBeta"]
+    elif w == "configs-null-entry":
+        # witness of a repaired defect: an empty list item inherits everything
+        cfg["packages"][MOD + "/p1"]["interfaces"]["Alpha"]["configs"][0] = None
     elif w == "blank-and-init":
         files["p1/misc.go"] = "package p1\n\nfunc init() {}\n\nvar _ = 1\n\ntype _ interface{ X() }\n\ntype Blank interface{ M(_ int, _ string) (_ error) }\n"
         cfg["packages"][MOD + "/p1"] = {"config": {"all": True}}
@@ -532,7 +535,96 @@ def eval_unusual(ctx, case):
     return Verdict.held(obs, tags=tags)
 
 
+# ---------------------------------------------------------------- shape fuzzing of the configuration (crash freedom + exit-0 consistency)
+FUZZ_KEYS = ["all", "recursive", "dir", "filename", "pkgname", "structname", "template", "template-schema", "formatter", "force-file-write", "log-level",
+             "include-interface-regex", "exclude-interface-regex", "exclude-subpkg-regex", "replace-type", "template-data", "boilerplate-file", "build-tags",
+             "require-template-schema-exists", "inpackage", "packages", "interfaces", "config", "configs", "_anchors", "include-auto-generated"]
+FUZZ_VALUES = [None, True, False, 0, -1, 1.5, 1e308, "", " ", "~", "null", "{{", "{{.Nope}}", "{{ .InterfaceName", "a/../..", "/", "\x00", "é" * 40, "x" * 5000,
+               [], [None], [[]], [{}], ["a", 1], {}, {"": None}, {"a": {"b": {"c": []}}}, {"1": 1}, [1, [2, [3, [4]]]], {"config": None}, {"interfaces": []},
+               "testify", "matryer", "file://", "file:///nonexistent", "http://", "https://[::1", "goimports", "gofmt", "noop"]
+
+
+def fuzz_paths(node, path=()):
+    """all (container path, key) pairs of a JSON tree"""
+    out = []
+    if isinstance(node, dict):
+        for k, v in node.items():
+            out.append((path, k))
+            out += fuzz_paths(v, path + (k,))
+    elif isinstance(node, list):
+        for k, v in enumerate(node):
+            out.append((path, k))
+            out += fuzz_paths(v, path + (k,))
+    return out
+
+
+def fuzz_get(node, path):
+    for k in path:
+        node = node[k]
+    return node
+
+
+def build_fuzz(case):
+    import random
+    rng = random.Random(case["seed"])
+    cfg = base_cfg(3)
+    cfg.update({"all": False, "template": "testify", "template-data": {"unroll-variadic": True}})
+    cfg["packages"][MOD + "/p2"]["config"].update({"dir": "mocks/{{.SrcPackageName}}", "pkgname": "mocks", "replace-type": {"io": {"Reader": {"pkg-path": "io", "type-name": "Writer"}}}})
+    muts = []
+    for _ in range(rng.randint(1, 3)):
+        paths = fuzz_paths(cfg)
+        cpath, key = rng.choice(paths)
+        cont = fuzz_get(cfg, cpath)
+        r = rng.random()
+        if r < 0.55:
+            v = copy.deepcopy(rng.choice(FUZZ_VALUES))
+            cont[key] = v
+            muts.append(["set", list(cpath) + [key], v])
+        elif r < 0.8 and isinstance(cont, dict):
+            nk = rng.choice(FUZZ_KEYS)
+            v = copy.deepcopy(rng.choice(FUZZ_VALUES))
+            cont[nk] = v
+            muts.append(["add", list(cpath) + [nk], v])
+        elif r < 0.9 and isinstance(cont, dict):
+            # move a subtree to a level where it does not belong
+            nk = rng.choice(FUZZ_KEYS)
+            cont[nk] = copy.deepcopy(cont[key])
+            muts.append(["copy", list(cpath) + [key], nk])
+        else:
+            if isinstance(cont, dict):
+                cont.pop(key)
+            else:
+                del cont[key]
+            muts.append(["del", list(cpath) + [key]])
+    return cfg, muts
+
+
+def eval_fuzz(ctx, case):
+    cfg, muts = build_fuzz(case)
+    files = copy.deepcopy(GOOD_SRC)
+    try:
+        files[".mockery.yml"] = json.dumps(cfg)
+    except (TypeError, ValueError):
+        return Verdict.skipped("not serialisable")
+    files[".mockery.yml"] = files[".mockery.yml"].replace("Infinity", ".inf").replace("NaN", ".nan")
+    root = core.scratch_module(ctx, files)
+    r = core.run_mockery(ctx, root, [], timeout=300, cpu_limit=120)
+    tags = ["fuzz"] + sorted({"mut=" + m[0] for m in muts})
+    obs = {"exit": r.exit, "mutations": muts}
+    if r.cpu_killed:
+        return Verdict.violated("mis-shaped configuration made mockery spin for 120 CPU-seconds", dict(obs, **r.brief()), tags)
+    if r.timed_out:
+        return Verdict.inconclusive("watchdog")
+    if r.panicked:
+        return Verdict.violated("mis-shaped configuration ends in an unrecovered panic", dict(obs, config=cfg, **r.brief()), tags)
+    if r.exit != 0 and not r.has_diag:
+        return Verdict.violated("non-zero exit without any diagnostic", dict(obs, config=cfg, **r.brief()), tags)
+    return Verdict.held(obs, tags=tags + ["exit=%s" % ("0" if r.exit == 0 else "nonzero")])
+
+
 def eval_case(ctx, case):
+    if case["kind"] == "fuzz":
+        return eval_fuzz(ctx, case)
     return eval_unusual(ctx, case) if case["kind"] == "unusual" else eval_invalid(ctx, case)
 
 
@@ -542,7 +634,9 @@ def body(ctx, replay=None):
     ctx.rule = ("invalid cases: %d input classes x every level where the key is legal x {alone, inside a valid 3-package configuration} "
                 "(thorough adds random pairs of faults); unusual cases: 8 go.mod spellings x in-package/out-of-package placement, function-local types "
                 "in every position, build-tagged files, test-only and empty directories under recursion, anchors with aliases/merge keys/nested maps, "
-                "very long names, main package, unicode identifiers, dot imports, nested output module. non-trivial = every case; distinct = case hash" % len(INVALID))
+                "very long names, main package, unicode identifiers, dot imports, nested output module; fuzz cases: a valid 3-package configuration with 1-3 random "
+                "shape mutations (wrongly typed / hostile values set, known keys added at levels where they do not belong, subtrees copied or deleted), monitored for "
+                "panics, CPU-bound termination and silent failures only. non-trivial = every case; distinct = case hash" % len(INVALID))
     ctx.assumptions = ["stderr/stdout are inspected only for emptiness and for a Go panic trace", "malformed go.mod files governing the output directory: crash-freedom only"]
     if replay is not None:
         cases = [replay]
@@ -572,7 +666,8 @@ def body(ctx, replay=None):
                 continue
                 cases.append({"kind": "invalid", "class": a, "level": ctx.rng.choice(INVALID[a][0]), "alone": False,
                               "extra": [[b, ctx.rng.choice(INVALID[b][0])]]})
-        ctx.exhaustive = True
+        nf = 150 if ctx.tier == "quick" else 3000
+        cases += [{"kind": "fuzz", "seed": ctx.rng.randrange(1 << 30)} for _ in range(nf)]
     ctx.run_cases(cases, eval_case)
     return ctx.finish()
 
